@@ -4,6 +4,16 @@ import json, os, sys
 HERE = os.path.dirname(os.path.dirname(os.path.abspath(__file__)))
 
 CHECKS = {
+ "C05": dict(level="other", design="4.5",
+   technique="abstract-variant typestate interpretation of the lifetime machinery over the template patterns (calls followed, visit_alt/visit_alt_at applied to their lambdas, exceptional successors at every element operation, try/catch rollback), relational truth tables against [variant.relops], guard-dominance rules for get/get_if/visit/hash, case-label/alternative agreement of the instantiated dispatch switches",
+   text="Decides structural necessary conditions on the template patterns (hence for every alternative set): destroy, generic_construct, emplace, assign_alt (both functor branches), assign, "
+        "generic_assign, swap incl. its rollback, copy/move constructors and assignments and the destructor are simulated on abstract variants {valueless, holds alt 0, holds alt 1} with an "
+        "exceptional successor at every element construction/assignment/swap/temporary; at every normal and exceptional exit each variant is valueless with no live alternative or holds exactly "
+        "the alternative its index names, nothing is constructed over a live alternative or destroyed twice, local variants are destroyed, and results carry the requested/source index; the "
+        "index/valueless primitives, base constructors, construct_alt and the destroy visitor have their defining shape; the six relational operators match [variant.relops] for every "
+        "valueless/index-order scenario incl. functor and operand order; get/get_if/visit/hash reach an alternative only under their guard; the 32-way dispatch switches of a 40-alternative "
+        "instantiation dispatch the alternative of their label. Element constructors running exactly once inside construct_alt, converting-constructor overload selection and value equality with std::variant are NOT decided.",
+   note="Trusts the interpreter in sa/rules/c05.py and clang's pattern AST; element destructors are assumed not to throw; only the C++14+ (generic lambda, relaxed constexpr) configuration is visible."),
  "C06": dict(level="other", design="4.6",
    technique="object-identity typestate interpretation of the vtable slot functions (effect summaries per slot, both families) and of every member of any under all presence/type/alias scenarios with exceptional successors; writer/vtable/reader agreement table over 11 payload types; guard-dominance rules for the casts",
    text="Decides structural necessary conditions: the functions stored in each vtable slot (vtable_stack and vtable_dynamic) have the slot's effect summary with every object owned by exactly "
